@@ -58,7 +58,27 @@ C18Laws ==
                  \* the duty god is 'establish' when day and month branches coincide and advances with the day branch
                  + Chk("C18.zhiXing", << k, x[6], x[7], x[8] >>, x[8] = ZhiXing[((x[6] - x[7]) % 12) + 1])
                  \* the clash branch is six places away
-                 + Chk("C18.chong", << k, x[6], x[9] >>, x[9] = Zhi[((x[6] + 6) % 12) + 1] /\ x[10] = Zhi[((x[11] + 6) % 12) + 1])))
+                 + Chk("C18.chong", << k, x[6], x[9] >>, x[9] = Zhi[((x[6] + 6) % 12) + 1] /\ x[10] = Zhi[((x[11] + 6) % 12) + 1])
+                 \* extension: the classical rules behind some of the table-driven attributes
+                 + (IF Len(x) < 22 THEN 0 ELSE
+                      LET dz == x[6] mz == x[7] g == x[20]
+                          \* the Azure Dragon sits on zi in yin/shen months, on yin in mao/you months, ... two branches further per month
+                          start == ((mz - 2) % 6) * 2
+                          ts == (dz - start) % 12
+                          yellow == ts \in {0, 1, 4, 5, 7, 10}
+                          am == IF x[18] < 0 THEN -x[18] ELSE x[18]
+                      IN Chk("EXT.almanac.heavenly-spirit", << k, mz, dz, x[13], x[14], x[15] >>,
+                             x[13] = TianShen[ts + 1] /\ x[14] = (IF yellow THEN "黄道" ELSE "黑道") /\ x[15] = (IF yellow THEN "吉" ELSE "凶"))
+                         \* the sha direction faces the three-harmony frame of the day branch: shen-zi-chen south, si-you-chou east, ...
+                         + Chk("EXT.almanac.sha-direction", << k, dz, x[16] >>, x[16] = << "南", "东", "北", "西" >>[(dz % 4) + 1])
+                         \* the six-day cycle restarts with the lunar month
+                         + Chk("EXT.almanac.six-day-cycle", << k, x[18], x[19], x[17] >>,
+                               x[17] = << "先胜", "友引", "先负", "佛灭", "大安", "赤口" >>[((am + x[19] - 2) % 6) + 1])
+                         \* joy-god direction by the day stem (jia/ji gen, yi/geng qian, bing/xin kun, ding/ren li, wu/gui xun)
+                         + Chk("EXT.almanac.joy-god-direction", << k, g, x[21] >>, x[21] = << "艮", "乾", "坤", "离", "巽" >>[(g % 5) + 1])
+                         \* the clash stem is the stem of the same polarity that the day stem checks
+                         + Chk("EXT.almanac.clash-stem", << k, g, x[22] >>,
+                               \E c \in 0..9 : x[22] = Gan[c + 1] /\ Yang(c) = Yang(g) /\ Checks(StemElem(g), StemElem(c))))))
 C18NaYin ==
   /\ IsEv("C18NaYin")
   /\ LET e == Trace[l]
